@@ -337,7 +337,7 @@ func runC10(c *an.Ctx) {
 	p := c.P
 	scope, roots := c10Scope(c)
 	c.Note("entry points: %s", strings.Join(roots, " "))
-	c.Floor("D1", "functions reachable from the deterministic entry points", len(scope), 300)
+	c.Floor("D1", "functions reachable from the deterministic entry points", len(scope), 200)
 	cfg := c10Config(p)
 	var fns []*ssa.Function
 	for fn := range scope {
@@ -392,7 +392,7 @@ func runC10(c *an.Ctx) {
 	c.Stats["D1:map loops in scope"] = nLoops
 	c.Stats["D1:automatically order-insensitive"] = nAuto
 	c.Stats["D1:triaged by reading"] = nTriaged
-	c.Floor("D1", "range-over-map loops in scope", nLoops, 60)
+	c.Floor("D1", "range-over-map loops in scope", nLoops, 40)
 	for k := range c10Triage {
 		if !usedTriage[k] {
 			c.Info("D1", "stale-triage("+k+")", 0, "triage entry matches no loop any more")
